@@ -122,6 +122,19 @@ CHECKS = {
              "the Api invariants exhaustively for small constants.",
         note="Digests are bitwise: histories use the exact dyadic model family, where jit/no-jit and batch width cannot change bits.",
         technique="TLC-generated API behaviours replayed into the code + TLC trace validation against Api.tla", ref="§6 C09"),
+    "C10": dict(
+        text="For seeded models and their rewritings (another declaration order, consistent renaming, an always-true constraint or "
+             "filter, the discrete restriction as constraint instead of filter) both solutions are recorded; TLC maps each array "
+             "through the layout of its own model and requires equal values for every state in the space of both "
+             "(Relations!RelBad); for the same pairs TLC also checks that the law holds between the specification's own solutions.",
+        note="Two-sided: spec-vs-spec (the law is a theorem of the reference semantics on these instances) and code-vs-code.",
+        technique="TLC trace validation of relations between recorded solutions of rewritten models", ref="§6 C10"),
+    "C11": dict(
+        text="Pairs (model, transformed model) for the four laws (a u + b, beta = 0 vs truncated model, horizons T and T+k, one-hot "
+             "stochastic vs deterministic): TLC checks V2[t2] = a V1[t1] + b sum beta^k on the recorded solutions - for small models "
+             "through the layout and also on the specification's own solutions, for models with 65-513 x 2 states entry by entry.",
+        note="Large models: tolerance 2^-8 (1+|v|); they are far beyond what the reference semantics can enumerate, only the relation is checked.",
+        technique="TLC trace validation of algebraic relations between recorded solutions (small: plus reference semantics)", ref="§6 C11"),
 }
 REASON_PENDING = "check under construction in this round (DESIGN.md §10); not yet claimed"
 
